@@ -1054,7 +1054,7 @@ func init() {
 			"Discrepant sessions are delta-minimised (inputs dropped) and signed by what differs + kind of the input + non-basic kinds of the remaining history. distinct = input kinds, adjacent kind pairs and kind sequences.",
 		NumCases: func(tier string) int {
 			if tier == "thorough" {
-				return 15000
+				return 1500
 			}
 			return 300
 		},
